@@ -277,6 +277,27 @@ def run(chk):
                            f"starts from {dag.short(dag.tonode(calls[1][0][0])) if len(calls) == 2 else '?'}: the matching factor is applied in place to "
                            f"the boundary condition, so the ratio across the threshold becomes fact^2, fact^3, ... with the number of calls",
                            where=fa.where, instance=inst, how="PE, same object evaluated twice")
+                # ... and the matching is applied although the segment in front of it has no length: the evolution above / below the
+                # wall starts from a_ref * matching factor
+                if calls:
+                    a_in = dag.tonode(calls[0][0][0])
+                    Aref = dag.sym("a_ref")
+                    L = dag.fn("log", ratios[nf_low + 1 - 4])
+                    T = tables[scheme]
+                    Tn = Arr([dag.substitute(dag.tonode(x), {"nf": nf_low}) for x in T.flat()], T.shape)
+                    if direction == "down":
+                        Tn = _invert_series(Tn)
+                    fact = dag.addn([dag.ONE] + [dag.mul(dag.mul(Tn[n, k], dag.power(L, k)), dag.power(Aref, n))
+                                                 for n in range(1, order) for k in range(0, n + 1)])
+                    okw, infow = dag.is_zero_fp([dag.sub(a_in, dag.mul(Aref, fact))], chk.seed, 3)
+                    chk.decide(okw and len(calls) == 2, "matching-wiring", fa.qname,
+                               f"{inst}: the evolution beyond the wall starts from a_ref * ({dag.short(dag.div(a_in, Aref), 200)}) after "
+                               f"{len(calls)} solver call(s) in two evaluations; required a_ref * (1 + sum_(n<{order}) a^n c_nk L^k): a reference "
+                               f"point on the matching scale skips the (empty) evolution in front of the wall, never the matching itself",
+                               where=fa.where, instance=inst + ",factor", data={"witness": infow}, how="PE + PIT F_p")
+                else:
+                    chk.fail("matching-wiring", fa.qname, f"{inst}: no solver call at all - the path beyond the wall is not evolved", where=fa.where,
+                             instance=inst + ",factor")
     chk.floor("repeated-evaluation instances", n_rep, 20)
     chk.floor("wiring instances", n_inst, 48)
     chk.note(instances=n_inst, files=["src/eko/couplings.py", "src/eko/matchings.py"])
